@@ -46,3 +46,11 @@ CHECKS["C01"] = dict(
           "`bumpver update [--dry]` runs on scratch projects (commit off, tag lists served by a fake git, three tag scopes, --ignore-vcs-tag) are recorded as `gate` events; "
           "the trace spec recomputes the start version from config value, tag list and scope, and evaluates the property on exit code, announced text and file changes."),
     note=_NOTE, ref="DESIGN.md section 6, C01")
+CHECKS["C15"] = dict(
+    technique="TLA+ spec of the README's pep440 derivation and of PEP 440 (BVDerived, BVPep440) model-checked with TLC + trace validation of the texts the real code writes for {pep440_version}",
+    text=("Design level: for DP = Pep440Pattern(P) (the README's normalisation rules as an operator on pattern ASTs) TLC checks over patterns x pool states x all six tags that the "
+          "text rendered through DP is PEP 440, denotes the same version as the version text (same release, pre/post/dev), is accepted by DP, agrees with the canonical form and "
+          "is in the stated normal form; the glued-separator gap S18 is a named deviation. Conformance: the code's own derived pattern is taken as data; the text written for "
+          "{pep440_version} is obtained from the library and end to end (`update` rewriting a file with both placeholders, `test` printing PEP440) and every predicate is "
+          "evaluated by the trace spec on the recorded texts."),
+    note=_NOTE, ref="DESIGN.md section 6, C15")
